@@ -8,7 +8,7 @@ ALL = ["C%02d" % i for i in range(1, 21)]
 
 CHECKS = {
  "C19": dict(level="exploration",
-   text="Configuration exploration through the real fitgen command built from the tree: every bundled workbook in both input forms twice, the repeat regenerating in place over a larger earlier output, the -sdk flag overriding / supplying the version of zip inputs (deviation 0) and every single-row toggle of the product-profile column that an independent dependency analysis allows (deviation 1; quick tier: component/subfield-bearing messages of the newest workbook). Each output is checked for determinism, declared SDK version, agreement with an independent stdlib reading of the workbook (go/ast audit) and for compiling together with the support code (go/types, errors classified).",
+   text="Configuration exploration through the real fitgen command built from the tree: every bundled workbook in both input forms twice, the repeat regenerating in place over a larger earlier output, the -sdk flag overriding / supplying the version of zip inputs, relative output directories from another working directory (deviation 0) and every single-row toggle of the product-profile column that an independent dependency analysis allows (deviation 1; quick tier: component/subfield-bearing messages of the newest workbook). Each output is checked for determinism, declared SDK version, agreement with an independent stdlib reading of the workbook (go/ast audit) and for compiling together with the support code (go/types, errors classified).",
    note="Dependency-closed subsets beyond deviation 1 are not enumerated (2^1000). Compile check is go/types with the source importer, not the gc back end. Stock output vs today's support code skew is a listed finding per workbook.",
    technique="deviation-bounded exhaustive configuration enumeration through the real command with an independent workbook reader as oracle", ref="3 C19"),
  "C20": dict(level="exploration",
@@ -16,11 +16,11 @@ CHECKS = {
    note="Type and constant inventory comes from go/types on types.go; the regeneration driver is added by build overlay (nothing written to /repo).",
    technique="exhaustive input enumeration + regeneration (translation) comparison", ref="3 C20"),
  "C08": dict(level="model_checking",
-   text="Explicit exploration of call histories: every sequence up to the bound over a 23-call pool chosen to collide on package-level state (incl. near-twin inputs that differ only in a detail a lossy cache key would conflate), each history executed in its own fresh process; every position must return what the same call returns when made first in a fresh process, and solo calls are repeated across processes (Encode determinism). Behavioural states (vectors of one-step futures) are counted: a pure implementation has exactly one.",
+   text="Explicit exploration of call histories: every sequence up to the bound over a 28-call pool chosen to collide on package-level state (incl. near-twin inputs that differ only in a detail a lossy cache key would conflate), each history executed in its own fresh process; every position must return what the same call returns when made first in a fresh process, and solo calls are repeated across processes (Encode determinism). Behavioural states (vectors of one-step futures) are counted: a pure implementation has exactly one.",
    note="Fresh-process baseline means no in-process reset has to be trusted. The package-level distance accumulator (listed finding) is shadowed and attributed exactly. Map-iteration nondeterminism is observed through repeated fresh-process runs, not enumerated.",
    technique="explicit-state exploration of call histories with a fresh-process differential oracle", ref="3 C08"),
  "C09": dict(level="model_checking",
-   text="Stateless schedule exploration on the real code under a cooperative scheduler with iterative preemption bounding. Scheduling points: (1) every Read/Write on harness-owned readers/writers (reads cut at record boundaries; the decoding calls again at byte granularity) for all unordered pairs of the 23 pool calls plus 3-thread and 2-calls-per-thread scenarios; (2) every access to a mutable package-level variable, through a build overlay generated from the current tree by tools in harness/cmd/vinstr (nothing written to /repo), each scenario in a fresh process, with an access-conflict oracle (variable written and touched by both goroutines, no locks in the package). Each thread must return its solo result under every schedule. A separate free-running pass of the same bodies under the Go race detector classifies every report by function signature.",
+   text="Stateless schedule exploration on the real code under a cooperative scheduler with iterative preemption bounding. Scheduling points: (1) every Read/Write on harness-owned readers/writers (reads cut at record boundaries; the decoding calls again at byte granularity) for all unordered pairs of the 28 pool calls plus 3-thread and 2-calls-per-thread scenarios; (2) every access to a mutable package-level variable, through a build overlay generated from the current tree by tools in harness/cmd/vinstr (nothing written to /repo), each scenario in a fresh process, with an access-conflict oracle (variable written and touched by both goroutines, no locks in the package). Each thread must return its solo result under every schedule. A separate free-running pass of the same bodies under the Go race detector classifies every report by function signature.",
    note="Interleavings are sequentially consistent at the granularity of the scheduling points; weak-memory effects are only sampled by the race-detector pass. Preemption bound completed: 2 (quick) / 4 (thorough) for pairs. The access-level pass leaves out the calls that hit the listed accumulator finding; if the package starts using locks/atomics the access-conflict oracle stands down (never a false alarm) and the race pass remains.",
    technique="stateless model checking with a controlled scheduler (environment-call and instrumented-access scheduling points), preemption bounding + separate race-detector pass", ref="3 C09"),
  "C05": dict(level="exploration",
@@ -32,7 +32,7 @@ CHECKS = {
    note="Component destinations are predicted by the C18 reference expansion; accumulated destinations are excluded when their source is set (C18 findings).",
    technique="bounded exhaustive input enumeration, round-trip oracle with stated relaxations", ref="3 C06"),
  "C07": dict(level="exploration",
-   text="A pool of tens of thousands of distinct accepted streams (model-generated families of C02/C12/C13/C18, out-of-profile-length strings and arrays, non-UTF-8 strings, string sequences longer-then-shorter, mix-family words, fully populated and sparse-after-rich messages, corpus and crasher inputs) is driven through decode-encode-decode-encode-decode in both byte orders; Encode must succeed, the output must pass CheckIntegrity, generation 2 must equal generation 1 up to profile lengths and generation 3 must equal generation 2.",
+   text="A pool of tens of thousands of distinct accepted streams (model-generated families of C02/C12/C13/C18, out-of-profile-length strings and arrays, non-UTF-8 strings, string sequences longer-then-shorter, mix-family words, fully populated and sparse-after-rich messages, a stream for each of the 256 file-type bytes, corpus and crasher inputs) is driven through decode-encode-decode-encode-decode in both byte orders; Encode must succeed, the output must pass CheckIntegrity, generation 2 must equal generation 1 up to profile lengths and generation 3 must equal generation 2.",
    note="Three listed findings (non-UTF-8 strings, one-pass expansion order, resized compressed_speed_distance) are attributed by exact defect models; accumulated destinations are excluded (C18 findings).",
    technique="bounded exhaustive input enumeration, multi-generation round-trip oracle", ref="3 C07"),
  "C03": dict(level="model_checking",
@@ -40,7 +40,7 @@ CHECKS = {
    note="Model derivation trusts the container struct declarations, not the add() switches. Bound: words <=2 (quick) / <=3 (thorough) over 102 symbols, runs of 100 for append growth.",
    technique="explicit enumeration of operation sequences against a reflection-derived reference model", ref="3 C03"),
  "C12": dict(level="model_checking",
-   text="The timestamp register machine of the property (reference or none, offset = reference mod 32, local time relative to the reference) is run in lock-step with the real decoder over all words up to the bound of explicit / compressed / local timestamp records, all 32x32 offset pairs, long runs with several rollovers, both byte orders, zero-field definitions, reference values with a zero low byte. Shared 'mix' family: all words up to length 3 (quick) / 4 (thorough) over 12 definition shapes x 2 local types x normal/compressed data records (both byte orders, timestamp first/middle/absent, zero-field and developer-field definitions, unknown messages and fields, signed/array/local-time fields, unhosted message, second file_id), each decoded and compared message by message and field by field with a complete reference decoder (parser + value model + timestamp machine + router).",
+   text="The timestamp register machine of the property (reference or none, offset = reference mod 32, local time relative to the reference) is run in lock-step with the real decoder over all words up to the bound of explicit / compressed / local timestamp records, all 32x32 offset pairs, long runs with several rollovers, both byte orders, zero-field definitions, reference values with a zero low byte or below 0x10000000; a local timestamp at every whole-second distance within +-15 h of its reference (108 001 zone offsets). Shared 'mix' family: all words up to length 3 (quick) / 4 (thorough) over 12 definition shapes x 2 local types x normal/compressed data records (both byte orders, timestamp first/middle/absent, zero-field and developer-field definitions, unknown messages and fields, signed/array/local-time fields, unhosted message, second file_id), each decoded and compared message by message and field by field with a complete reference decoder (parser + value model + timestamp machine + router).",
    note="Alphabet excludes reference value 0, 32-bit overflow of the second counter and system-time references interacting with local time (property silent).",
    technique="explicit enumeration of record sequences against a reference state machine", ref="3 C12"),
  "C13": dict(level="model_checking",
@@ -72,7 +72,7 @@ CHECKS = {
    note="Streams are built by the reference builder, which supplies the record boundaries for the partial-content oracle.",
    technique="exhaustive crash-point (cut) and fault-offset enumeration against a frame model", ref="3 C11"),
  "C01": dict(level="exploration",
-   text="Bounded exhaustive input-shape exploration of the six decoding entry points under recover and a hang watchdog: the full single-field definition space the property names (message x field number x base-type byte x size x byte order; quick tier restricts field numbers and unknown base types as stated in evidence), header space, record-header space with every cut, and the corpus with cuts; the decoding calls are made bare and with decode options (all, each alone), which register deferred work before the header is read; headers that lie about the data size (every declared size on streams with long fields, under several read chunkings). Totality is a safety property over inputs, so exhaustive enumeration of the structured families is the strongest decision available short of proof.",
+   text="Bounded exhaustive input-shape exploration of the six decoding entry points under recover and a hang watchdog: the full single-field definition space the property names (message x field number x base-type byte x size x byte order; quick tier restricts field numbers and unknown base types as stated in evidence), header space, record-header space with every cut, and the corpus with cuts; the decoding calls are made bare and with decode options (all, each alone), which register deferred work before the header is read; headers that lie about the data size (every declared size on streams with long fields, under several read chunkings); a local timestamp at every whole-second zone offset within +-15 h. Totality is a safety property over inputs, so exhaustive enumeration of the structured families is the strongest decision available short of proof.",
    note="Assumes: readers that never make progress are out of scope; arbitrary unstructured garbage is not enumerated. Panics are caught with recover, hangs with a 30 s watchdog.",
    technique="bounded exhaustive input enumeration on the real decoder (definition / header / record-header / cut spaces)", ref="3 C01"),
  "C15": dict(level="exploration",
